@@ -176,7 +176,8 @@ def run_merge_order(chk, src, floor=8):
     shp = [n for n in ast.walk(ta.node) if isinstance(n, ast.Call) and unparse(n.func) == "output_shape.append" and isinstance(n.args[0], ast.BinOp)]
     for n in shp:
         facs = [unparse(n.args[0].left).split(".")[0], unparse(n.args[0].right).split(".")[0]]
-        chk.ob("merge-order", f"TTNO.apply shape {unparse(n.args[0])}", facs == lorder, ta.where, facs, lorder, line=n.lineno)
+        # the size of a merged bond is a commutative product: only the two factors matter, not their order
+        chk.ob("merge-order", f"TTNO.apply shape {unparse(n.args[0])}", sorted(facs) == sorted(lorder), ta.where, sorted(facs), sorted(lorder), line=n.lineno)
 
 
 def run_label_freshness(chk, src):
